@@ -109,7 +109,9 @@ class Settings(object):
     tol = None              # None: exact goals only; else (abs_tol, box): tolerance fallback
     nice_models = True
     isolate = True          # nonlinear obligations are decided in a forked child (hard timeout)
-    strict_definedness = False
+    strict_definedness = True   # results that depend on an undefined operation (x/0, sqrt(-1), log(0)) are NOT excused:
+                                # the poison symbol is a free variable, so the obligation fails and is replayed; harnesses whose
+                                # inputs/oracles legitimately divide by symbolic values opt out (excluded obligations are counted)
     shadow = True
     max_shadow = 40
     conc_rtol = 1e-6
